@@ -325,10 +325,11 @@ theorem history_core (c : Cfg) (s : St) (r : SignedHash) :
   split; · exact ⟨rfl, rfl⟩
   split <;> exact ⟨rfl, rfl⟩
 
-theorem balance_core (c : Cfg) (s : St) (r : SignedHash) :
-    (balance c s r).1.awaiting = s.awaiting ∧ (balance c s r).1.sealed = s.sealed := by
+theorem balance_core (c : Cfg) (s : St) (r : SignedHash) (lo : Bool) :
+    (balance c s r lo).1.awaiting = s.awaiting ∧ (balance c s r lo).1.sealed = s.sealed := by
   unfold balance throttle
   simp only
+  split; · exact ⟨rfl, rfl⟩
   split; · exact ⟨rfl, rfl⟩
   split; · exact ⟨rfl, rfl⟩
   split <;> exact ⟨rfl, rfl⟩
@@ -347,8 +348,8 @@ theorem inv_step {c : Cfg} {base : List TrxB} {past : List Op} {s : St} (op : Op
   | history r =>
     have e := history_core c s r
     exact (h.past_mono _).of_same e.1 e.2
-  | balance r =>
-    have e := balance_core c s r
+  | balance r lo =>
+    have e := balance_core c s r lo
     exact (h.past_mono _).of_same e.1 e.2
   | saved r => exact (h.past_mono _).of_same rfl rfl
   | ledgerDrop hs =>
